@@ -171,6 +171,9 @@ type kbEntry struct {
 	priv crypto.PrivateKey // nil when the keybase generated the key itself (Create)
 	pass string
 	old  []string // passphrases that used to protect the key (must no longer work)
+	// armor is the stored value of the map entry as the keybase last handed it out for this key (returned by
+	// Create / Import*, re-read and verified after an Update): Get and List must keep returning exactly it
+	armor string
 }
 
 type kbMachine struct {
@@ -180,6 +183,11 @@ type kbMachine struct {
 	model map[string]*kbEntry // address hex -> entry
 	gone  []string            // deleted addresses
 	n     int
+	// coinbase model: the address the keybase instance has selected as coinbase ("" = none selected yet:
+	// GetCoinbase then selects the first listed key). The selection lives in the instance, not in the database.
+	coinbase    string
+	coinbasePub crypto.PublicKey
+	dir         string // directory of the lazy keybase ("" = in memory)
 }
 
 func (m *kbMachine) addrs() []string {
@@ -211,6 +219,11 @@ func (m *kbMachine) pick(absentOK bool) (string, bool) {
 			}
 		}
 		return strings.ToLower(gen.PoolKey(200 + m.n).Addr.String()), false
+	}
+	// the key selected as coinbase is the one a node operator works with most: one pick in three goes to it
+	if _, there := m.model[m.coinbase]; there && rapid.IntRange(0, 2).Draw(m.rt, "pickCoinbase") == 0 {
+		m.c.Label("op-on-coinbase-key")
+		return m.coinbase, true
 	}
 	return as[rapid.IntRange(0, len(as)-1).Draw(m.rt, "slot")], true
 }
@@ -262,6 +275,9 @@ func (m *kbMachine) checkListing(where string) {
 		if e := m.model[a]; e != nil && !sameKey(kp.PublicKey, e.pub) {
 			m.c.Violation("C40/keybase/list-wrong-pubkey", "%s: List entry %s carries another public key", where, m.slotName(a))
 		}
+		if e := m.model[a]; e != nil && e.armor != "" && kp.PrivKeyArmor != e.armor {
+			m.c.Violation("C40/keybase/list-stale-armor", "%s: List entry %s carries another armor than the one last stored for the key", where, m.slotName(a))
+		}
 	}
 	for _, a := range want {
 		kp, err := m.kb.Get(addrOf(a))
@@ -271,6 +287,9 @@ func (m *kbMachine) checkListing(where string) {
 		}
 		if !sameKey(kp.PublicKey, m.model[a].pub) || strings.ToLower(kp.GetAddress().String()) != a {
 			m.c.Violation("C40/keybase/get-wrong-key", "%s: Get(%s) returns another key", where, m.slotName(a))
+		}
+		if e := m.model[a]; e.armor != "" && kp.PrivKeyArmor != e.armor {
+			m.c.Violation("C40/keybase/get-stale-armor", "%s: Get(%s) returns another armor than the one last stored for the key (coinbase=%v)", where, m.slotName(a), a == m.coinbase)
 		}
 	}
 	for _, a := range m.gone {
@@ -283,9 +302,19 @@ func (m *kbMachine) checkListing(where string) {
 	}
 }
 
-func (m *kbMachine) add(pub crypto.PublicKey, priv crypto.PrivateKey, pass string) {
+func (m *kbMachine) add(pub crypto.PublicKey, priv crypto.PrivateKey, pass string, armor string) {
 	a := strings.ToLower(sdk.Address(pub.Address()).String())
-	m.model[a] = &kbEntry{pub: pub, priv: priv, pass: pass}
+	m.model[a] = &kbEntry{pub: pub, priv: priv, pass: pass, armor: armor}
+}
+
+// remove takes a key out of the model (Delete / UnsafeDelete succeeded).
+func (m *kbMachine) remove(a string) {
+	m.c.Label("deleted")
+	if a == m.coinbase {
+		m.c.Label("coinbase-key-deleted")
+	}
+	delete(m.model, a)
+	m.gone = append(m.gone, a)
 }
 
 // keyForImport draws the key of an import: one time in three (when possible) a key that is already stored
@@ -314,9 +343,9 @@ func (m *kbMachine) step() {
 	rt, c := m.rt, m.c
 	m.n++
 	ops := []string{"create", "importRaw", "importArmor", "importArmor", "sign", "sign", "update", "update", "update", "exportArmor", "exportObject", "exportObject",
-		"delete", "delete", "delete", "get", "unsafeDelete"}
+		"delete", "delete", "delete", "get", "unsafeDelete", "setCoinbase", "setCoinbase", "getCoinbase", "getCoinbase", "closeDB"}
 	if len(m.model) == 0 {
-		ops = []string{"create", "importRaw", "importArmor"}
+		ops = []string{"create", "create", "importRaw", "importRaw", "importArmor", "importArmor", "getCoinbase"}
 	}
 	op := rapid.SampledFrom(ops).Draw(rt, "op")
 	c.Label("op:" + op)
@@ -331,7 +360,7 @@ func (m *kbMachine) step() {
 			c.Violation("C40/keybase/create-error", "Create: %v", err)
 			return
 		}
-		m.add(kp.PublicKey, nil, pass)
+		m.add(kp.PublicKey, nil, pass, kp.PrivKeyArmor)
 	case "importRaw":
 		k := m.keyForImport(true)
 		pass := drawPassphrase(rt, "pass")
@@ -344,7 +373,7 @@ func (m *kbMachine) step() {
 			c.Label("import-existing")
 			if err == nil {
 				c.Violation("C40/keybase/import-overwrites", "ImportPrivateKeyObject silently overwrote an existing key")
-				m.add(k.Pub, k.Priv, pass)
+				m.add(k.Pub, k.Priv, pass, kp.PrivKeyArmor)
 			}
 			return
 		}
@@ -353,7 +382,7 @@ func (m *kbMachine) step() {
 			c.Violation("C40/keybase/import-error", "ImportPrivateKeyObject of a fresh key: err=%v", err)
 			return
 		}
-		m.add(k.Pub, k.Priv, pass)
+		m.add(k.Pub, k.Priv, pass, kp.PrivKeyArmor)
 	case "importArmor":
 		k := m.keyForImport(false)
 		armorPass, encPass := drawPassphrase(rt, "armorPass"), drawPassphrase(rt, "encPass")
@@ -378,13 +407,13 @@ func (m *kbMachine) step() {
 		case !right:
 			if err == nil {
 				c.Violation("C40/keybase/import-wrong-passphrase-accepted", "ImportPrivKey decrypts an armor with the wrong passphrase")
-				m.add(k.Pub, k.Priv, encPass)
+				m.add(k.Pub, k.Priv, encPass, kp.PrivKeyArmor)
 			}
 		case exists:
 			c.Label("import-existing")
 			if err == nil {
 				c.Violation("C40/keybase/import-overwrites", "ImportPrivKey silently overwrote an existing key")
-				m.add(k.Pub, k.Priv, encPass)
+				m.add(k.Pub, k.Priv, encPass, kp.PrivKeyArmor)
 			}
 		default:
 			c.AddExtra("armor_ops", 1)
@@ -392,7 +421,7 @@ func (m *kbMachine) step() {
 				c.Violation("C40/keybase/import-error", "ImportPrivKey with the right passphrase: err=%v", err)
 				return
 			}
-			m.add(k.Pub, k.Priv, encPass)
+			m.add(k.Pub, k.Priv, encPass, kp.PrivKeyArmor)
 		}
 	case "get":
 		a, present := m.pick(true)
@@ -445,6 +474,26 @@ func (m *kbMachine) step() {
 			if err != nil {
 				c.Violation("C40/keybase/right-passphrase-rejected", "Update with the current passphrase fails: %v", err)
 				return
+			}
+			// the stored value was replaced: what Get hands out now is a new armor (fresh salt) that opens with the
+			// new passphrase to the same key
+			if kp, err := m.kb.Get(addrOf(a)); err != nil {
+				c.Violation("C40/keybase/get-misses-listed-key", "Get(%s) after Update: %v", m.slotName(a), err)
+			} else {
+				if e.armor != "" && kp.PrivKeyArmor == e.armor {
+					c.Violation("C40/keybase/get-stale-armor", "after a successful Update(%q -> %q) Get(%s) still returns the armor stored before the update (coinbase=%v)", e.pass, newPass, m.slotName(a), a == m.coinbase)
+				}
+				priv, err := mintkey.UnarmorDecryptPrivKey(kp.PrivKeyArmor, newPass)
+				c.AddExtra("armor_ops", 1)
+				if err != nil {
+					c.Violation("C40/keybase/updated-armor-rejects-new-passphrase", "after Update(%q -> %q) the armor returned by Get(%s) does not open with the new passphrase: %v (coinbase=%v)", e.pass, newPass, m.slotName(a), err, a == m.coinbase)
+				} else if !sameKey(priv.PublicKey(), e.pub) || (e.priv != nil && !samePriv(priv, e.priv)) {
+					c.Violation("C40/keybase/update-changed-key", "after Update the armor returned by Get(%s) decrypts to another key", m.slotName(a))
+				}
+				e.armor = kp.PrivKeyArmor
+			}
+			if a == m.coinbase {
+				c.Label("coinbase-key-updated")
 			}
 			if newPass != e.pass {
 				e.old = append(e.old, e.pass)
@@ -530,13 +579,10 @@ func (m *kbMachine) step() {
 				c.Violation("C40/keybase/right-passphrase-rejected", "Delete with the current passphrase fails: %v", err)
 				return
 			}
-			c.Label("deleted")
-			delete(m.model, a)
-			m.gone = append(m.gone, a)
+			m.remove(a)
 		} else if err == nil {
 			c.Violation("C40/keybase/wrong-passphrase-deletes", "Delete succeeds with passphrase %q, the key is protected by %q", pass, e.pass)
-			delete(m.model, a)
-			m.gone = append(m.gone, a)
+			m.remove(a)
 		}
 	case "unsafeDelete":
 		if rapid.IntRange(0, 2).Draw(rt, "doUnsafe") != 0 {
@@ -549,10 +595,95 @@ func (m *kbMachine) step() {
 			c.Violation("C40/keybase/unsafe-delete-differs-from-model", "UnsafeDelete: err=%v, model says present=%v", err, present)
 		}
 		if present {
-			c.Label("deleted")
-			delete(m.model, a)
-			m.gone = append(m.gone, a)
+			m.remove(a)
 		}
+	case "setCoinbase":
+		// SetCoinbase(address): selects a stored key as the coinbase; an address that is not stored is refused and
+		// leaves the selection alone
+		a, present := m.pick(true)
+		c.Opf("setCoinbase %s", m.slotName(a))
+		c.Label("coinbase")
+		err := m.kb.SetCoinbase(addrOf(a))
+		if present != (err == nil) {
+			c.Violation("C40/keybase/set-coinbase-differs-from-model", "SetCoinbase(%s): err=%v, model says present=%v", m.slotName(a), err, present)
+		}
+		if present {
+			m.coinbase, m.coinbasePub = a, m.model[a].pub
+		}
+		m.checkCoinbase("after SetCoinbase")
+	case "getCoinbase":
+		c.Opf("getCoinbase (selected: %s)", m.coinbaseName())
+		c.Label("coinbase")
+		m.checkCoinbase("getCoinbase")
+	case "closeDB":
+		// CloseDB: a no-op for the lazy keybase (every call opens and closes the database) - the keys must be
+		// found again by a new keybase instance over the same directory, which has no coinbase selected yet;
+		// the in-memory database documents Close as a no-op that loses nothing
+		c.Label("close-db")
+		m.kb.CloseDB()
+		if m.dir != "" {
+			c.Opf("closeDB and reopen the keybase directory")
+			m.kb = keys.New("keybase", m.dir)
+			m.coinbase, m.coinbasePub = "", nil
+		} else {
+			c.Opf("closeDB (in memory)")
+		}
+	}
+}
+
+func (m *kbMachine) coinbaseName() string {
+	if m.coinbase == "" {
+		return "none"
+	}
+	return m.slotName(m.coinbase)
+}
+
+// checkCoinbase calls GetCoinbase and compares with the model: no selection and no keys -> error; no selection ->
+// the first listed key (lowest address) becomes the selection; otherwise the selected address with its public key.
+// What GetCoinbase returns for a selected key that was deleted afterwards is not specified (the code keeps handing
+// out the key pair it cached) - nothing is asserted then; likewise the armor inside the returned pair is not compared.
+func (m *kbMachine) checkCoinbase(where string) {
+	c := m.c
+	kp, err := m.kb.GetCoinbase()
+	if m.coinbase == "" {
+		as := m.addrs()
+		if len(as) == 0 {
+			c.Label("coinbase-of-empty-keybase")
+			if err == nil {
+				c.Violation("C40/keybase/coinbase-of-empty-keybase", "%s: GetCoinbase on an empty keybase without a selection returns a key", where)
+			}
+			return
+		}
+		c.Label("coinbase-default")
+		if err != nil {
+			c.Violation("C40/keybase/get-coinbase-error", "%s: GetCoinbase with %d stored keys: %v", where, len(as), err)
+			return
+		}
+		got := strings.ToLower(kp.GetAddress().String())
+		e := m.model[got]
+		if e == nil {
+			c.Violation("C40/keybase/coinbase-not-a-stored-key", "%s: GetCoinbase returns address %s which is not in the keybase", where, got)
+			return
+		}
+		if got != as[0] {
+			c.Violation("C40/keybase/coinbase-default-not-first-listed", "%s: GetCoinbase without a selection returns %s, the first listed key is %s", where, m.slotName(got), m.slotName(as[0]))
+		}
+		if !sameKey(kp.PublicKey, e.pub) {
+			c.Violation("C40/keybase/coinbase-wrong-key", "%s: GetCoinbase returns another public key than the stored one", where)
+		}
+		m.coinbase, m.coinbasePub = got, e.pub
+		return
+	}
+	if _, there := m.model[m.coinbase]; !there {
+		c.Label("coinbase-key-deleted")
+		return
+	}
+	if err != nil {
+		c.Violation("C40/keybase/get-coinbase-error", "%s: GetCoinbase with %s selected: %v", where, m.coinbaseName(), err)
+		return
+	}
+	if got := strings.ToLower(kp.GetAddress().String()); got != m.coinbase || !sameKey(kp.PublicKey, m.coinbasePub) {
+		c.Violation("C40/keybase/coinbase-wrong-key", "%s: GetCoinbase returns %s, selected was %s", where, m.slotName(got), m.coinbaseName())
 	}
 }
 
@@ -565,6 +696,7 @@ func c40Keybase(rt *rapid.T, c *harness.Case) {
 			panic(err)
 		}
 		defer os.RemoveAll(dir)
+		m.dir = dir
 		m.kb = keys.New("keybase", dir)
 		c.Label("lazy-keybase")
 		c.Opf("keybase on disk (lazy)")
@@ -573,7 +705,7 @@ func c40Keybase(rt *rapid.T, c *harness.Case) {
 		c.Opf("keybase in memory")
 	}
 	c.Label("keybase")
-	n := rapid.IntRange(3, 8).Draw(rt, "steps")
+	n := rapid.IntRange(4, 9).Draw(rt, "steps")
 	m.checkListing("initial")
 	for i := 0; i < n; i++ {
 		m.step()
@@ -609,11 +741,13 @@ func TestC40(t *testing.T) {
 	}
 	harness.Check(t, "C40",
 		"each case is (1 in 3) an armor case: generated ed25519/secp256k1 key, passphrase (empty, ASCII, unicode, long) and hint through EncryptArmorPrivKey/UnarmorDecryptPrivKey with the right passphrase, a different "+
-			"passphrase (near misses included) and a one-character corruption of salt, ciphertext or kdf; or (2 in 3) a keybase history of 3-8 operations (create, import raw, import armored with right/wrong decrypt "+
-			"passphrase, get, sign, update, export armored, export object, delete, unsafe delete; on existing keys with the right passphrase 2 in 3 and a wrong or replaced one 1 in 3; on absent/deleted addresses 1 in 6) on "+
-			"NewInMemory() (3 in 4) or the on-disk lazy keybase, checked after every step against a map address -> (public key, passphrase): List/Get agree with the map, deleted keys are gone. "+
+			"passphrase (near misses included) and a one-character corruption of salt, ciphertext or kdf; or (2 in 3) a keybase history of 4-9 operations (create, import raw, import armored with right/wrong decrypt "+
+			"passphrase, get, sign, update, export armored, export object, delete, unsafe delete, SetCoinbase, GetCoinbase, CloseDB (lazy: + reopen the directory with a new instance); on existing keys with the right "+
+			"passphrase 2 in 3 and a wrong or replaced one 1 in 3; on absent/deleted addresses 1 in 6; one pick in three goes to the key selected as coinbase) on "+
+			"NewInMemory() (3 in 4) or the on-disk lazy keybase, checked after every step against a map address -> (public key, passphrase, stored armor) plus the selected coinbase address: List/Get agree with the map "+
+			"(same keys, same armor as last stored; after Update a new armor that opens with the new passphrase), deleted keys are gone, GetCoinbase = the selected key or the first listed one. "+
 			"non-trivial = the case presents a wrong or replaced passphrase to an existing key/armor. Bounded by scrypt cost (~0.1 s per derivation; see armor_ops)",
-		map[string]float64{"armor": 0.15, "keybase": 0.4, "wrong-passphrase": 0.5, "lazy-keybase": 0.05},
+		map[string]float64{"armor": 0.15, "keybase": 0.4, "wrong-passphrase": 0.5, "lazy-keybase": 0.05, "coinbase": 0.12},
 		func(rt *rapid.T, c *harness.Case) {
 			gen.ResetCodecGlobals()
 			if rapid.IntRange(0, 2).Draw(rt, "scenario") == 0 {
